@@ -182,9 +182,12 @@ class ConstFold:
     tokens).  Only pure string / tuple operations are applied; nothing from the
     repository is executed.  Anything else raises AnalysisError."""
 
-    def __init__(self, ctx, fi, env=None):
+    UNKNOWN = "@"
+
+    def __init__(self, ctx, fi, env=None, lenient=False):
         self.ctx, self.fi, self.env = ctx, fi, dict(env or {})
         self._depth = 0
+        self.lenient = lenient
 
     def ev(self, e):
         import os
@@ -192,7 +195,12 @@ class ConstFold:
         if self._depth > 200:
             raise AnalysisError("constant folding too deep")
         try:
-            return self._ev(e)
+            if not self.lenient:
+                return self._ev(e)
+            try:
+                return self._ev(e)
+            except (AnalysisError, TypeError, ValueError, IndexError, KeyError):
+                return self.UNKNOWN
         finally:
             self._depth -= 1
 
@@ -210,7 +218,7 @@ class ConstFold:
             while f is not None:
                 d = single_def(f, e.id)
                 if d is not None:
-                    return ConstFold(self.ctx, f, self.env).ev(d[1])
+                    return ConstFold(self.ctx, f, self.env, self.lenient).ev(d[1])
                 f = f.parent
             s = self.ctx.prog.fold_str(self.fi.module, e)
             if s is not None:
